@@ -98,7 +98,7 @@ def observe(ctx, progs, label):
                     ctx.count("message_types_checked")
                 # no inline bounds / where clause may mention a parameter the type does not have
                 scope = set(got)
-                allp = {g["name"] for g in p.get("generics", [])} if part["id"] == "c" else {n for n, _ in part.get("assoc", [])}
+                allp = {g["name"] for g in p.get("generics", [])} if part["id"] == "c" else ({n for n, _ in part.get("assoc", [])} | set(part.get("special_params", {})))
                 for w in it["generics"]["where"] + it["generics"]["inline_bounds"]:
                     toks = set(w.replace("<", " ").replace(">", " ").replace(",", " ").replace(":", " ").replace("(", " ").replace(")", " ").split())
                     stray = (toks & allp) - scope
